@@ -30,7 +30,7 @@ def make_input(p, wd, name="plt_in", names=None, payload="coded", specials=True)
             arr = pf.data[lv][b]
             arr[tuple(rng.randrange(s) for s in arr.shape)] = val
     path = os.path.join(wd, name)
-    gen.write_plotfile(path, pf)
+    gen.write_plotfile(path, pf, exist_ok=bool(p.get("in_place")))
     return pf, path
 
 
@@ -254,6 +254,8 @@ def run_chk2plt_scenario(p, wd):
         gen.write_plotfile(ref, rp)
     combos = [(g, r, f) for g in (True, False) for r in (False, True) for f in (True, False)]
     rng.shuffle(combos)
+    if p.get("force_floor"):
+        combos.sort(key=lambda c: not c[2])          # the flooring variants first
     for ci, (gradp, reac, floor) in enumerate(combos[: p.get("ncombos", 3)]):
         out = os.path.join(wd, f"plt_out_{ci}")
         what = f"chk2plt(chk, gradp={gradp}, species_reactions={reac}, floor_massfracs={floor}, ghost={ck.ghost})"
